@@ -5,6 +5,7 @@ import hashlib
 import json
 import os
 import random
+import re
 
 import sx
 import gen
@@ -1238,6 +1239,7 @@ PROPS["C03"] = dict(
 )
 
 PROPS["C01"].update(
+    layout_oracle=True,
     level_text="Proved in Coq for every registry state and every description: when the model's type_build accepts, the emitted "
                "struct laid out by the Rust Reference's repr(C)/packed algorithm (RustLayout.v) has every region at the prefix "
                "sum of the preceding region sizes, with no compiler padding, size and alignment as resolved "
@@ -1246,17 +1248,18 @@ PROPS["C01"].update(
                "the declared offsets are re-derived from the implementation's own emitted files by an independent layout "
                "calculator (monitor). C01_whole_build: the same end to end -- every struct of every accepted build (any schedule, width, modules; input collision_free, decidable, false without it: F4b), with the sizes of the FINAL registry.",
     level_note="Trusted: Coq kernel; the hand-written model (validated by correspondence on generated inputs only); RustLayout.v as "
-               "a transcription of the Rust Reference (validated by the independent calculator tools/pylayout.py on the real files and, for sizes at width 8, by rustc through C13's size-check transmutes; no rustc layout oracle at width 4); "
+               "a transcription of the Rust Reference (validated by the independent calculator tools/pylayout.py on the real files and, at pointer width 8, by rustc itself: the emitted crate is compiled with const assertions offset_of!(T, f) == declared address, 40 crates quick / 600 thorough; no rustc oracle at width 4); "
                "by-value void fields are a known finding class (F9) and excluded.",
 )
 PROPS["C02"].update(
+    layout_oracle=True,
     level_text="Proved in Coq (coq/Properties/C02.v): for every accepted struct attempt the resolved size is the sum of the "
                "region sizes, equals a declared #[size(N)], and the Rust Reference layout of the emitted "
                "repr(C, align(A)) / repr(C, packed) struct has exactly the resolved size and alignment. Correspondence compares the "
                "registry (size, alignment per item, read through the public API), repr attributes and size-check literals; "
                "the monitor recomputes every emitted item's layout from the implementation's files. C02_whole_build / C02_items_come_from_attempts / C02_sizes_never_change: end to end for every accepted collision_free build -- every item comes from one attempt whose known sizes are unchanged in the final registry.",
     level_note="Trusted: Coq kernel; hand-written model validated by the correspondence of this run; RustLayout.v is a transcription of the Reference "
-               "(checked against pylayout on the real files and against rustc's transmute size checks in C13 at width 8), not proved against rustc.",
+               "(checked against pylayout on the real files and, at pointer width 8, against rustc itself: const assertions size_of/align_of == resolved on the emitted crate, 40 crates quick / 600 thorough), not proved against rustc.",
 )
 
 # ------------------------------------------------------------------------------------------------
@@ -1378,6 +1381,50 @@ def hyps_key(m):
     return "theorem_hyps:collision_free=%s,clean=%s" % (d["collision_free"], d.get("clean"))
 
 
+LAYOUT_PROFILE = dict(p_pub=1.0, p_backend=0.0, p_markers=0.3, modules=(1, 2), p_nested_mod=0.3, p_vftable=0.4, p_base=0.5, p_impl=0.3,
+                      p_vfunc_no_self=0.0, p_packed=0.2, p_align=0.3, p_size=0.4, p_gap=0.3, p_addr=0.5, p_zero_array=0.1, miss=0.0,
+                      extern_values=(0, 0), p_singleton=0.0)
+
+
+def rustc_layout_stage(pid, tier, seed, scratch):
+    """rustc itself as the authority (pointer width 8, the host): the emitted crate is compiled with
+    compile-time assertions -- size_of/align_of of every item = what pyxis resolved (C02), offset_of of
+    every declared field = the declared address (C01).  Crates that rustc rejects for another reason
+    (listed findings, visibility outside the documented fragment) are not usable and are counted."""
+    import rustc_oracle
+    from concurrent.futures import ThreadPoolExecutor
+    n = 40 if tier == "quick" else 600
+    cases = []
+    for i in range(n):
+        files, exp = gen.generate(seed * 7919 + 17 * i + 3, 8, LAYOUT_PROFILE)
+        cases.append(dict(id="lay-%d" % i, ptr=8, schedule=[], files=files, exp=exp, text=True))
+    failures, counts = [], collections.Counter()
+    for b0 in range(0, len(cases), 200):
+        results = [r for r in engine.run(cases[b0:b0 + 200], scratch, want_model=False) if r.hv[0] == "ok"]
+
+        def job(r):
+            try:
+                return rustc_oracle.layout_check(r.h, r.case["exp"], scratch, re.sub(r"\W", "_", r.case["id"]))
+            except Exception as e:  # noqa
+                return (False, ["oracle-error"], str(e))
+        with ThreadPoolExecutor(P.JOBS) as ex:
+            verdicts = list(ex.map(job, results))
+        for r, (ok, codes, err) in zip(results, verdicts):
+            if ok:
+                counts["rustc_layout:all_assertions_hold"] += 1
+                continue
+            msgs = sorted(set(re.findall(r"(%s [^\n\"']*)" % pid, err))) if "E0080" in codes else []
+            if msgs:
+                counts["rustc_layout:ASSERTION_FAILED"] += 1
+                failures.append(dict(clause="%s.rustc_layout" % pid, detail="rustc evaluates the layout differently: %s" % "; ".join(msgs[:5]),
+                                     case=summarise_case(r.case)))
+            elif "E0080" in codes:
+                counts["rustc_layout:assertion_of_the_other_property_failed"] += 1
+            else:
+                counts["rustc_layout:crate_unusable:%s" % ",".join(codes)] += 1
+    return failures, dict(counts)
+
+
 def run_property(pid, prop, tier, seed, scratch, replay=None):
     custom = prop.get("runner")
     if custom:
@@ -1451,4 +1498,9 @@ def run_property(pid, prop, tier, seed, scratch, replay=None):
     out["fullfile_equal"] = fullfile_equal
     if not out["samples"] and first_case is not None:
         out["samples"].append(dict(id=first_case["id"], ptr=first_case.get("ptr"), files=first_case["files"], impl_verdict=first_verdict))
+    if prop.get("layout_oracle") and not replay:
+        fails, counts = rustc_layout_stage(pid, tier, seed, scratch)
+        out["failures"].extend(fails)
+        out["oracle"] = counts
+        out["evaluations"] += sum(counts.values())
     return out
